@@ -243,6 +243,44 @@ def stores_own_name(repo, ci, fi, depth=3, max_paths=4096):
 # class-level configuration plumbing (shared by C05, C06, C07, C10)
 # ---------------------------------------------------------------------------
 
+def _position_source(func, call):
+    """canonical text of E when the first argument of ``call`` enumerates E (the index of
+    ``enumerate(E)``): through a loop / comprehension target, or as the first parameter of a
+    local function mapped over ``*zip(*enumerate(E))`` / ``enumerate(E)`` unpacked"""
+    pos = call.args[0]
+    if not isinstance(pos, ast.Name):
+        return None
+    for n in ast.walk(func):
+        gens = []
+        if isinstance(n, ast.For):
+            gens.append((n.target, n.iter, n))
+        elif isinstance(n, (ast.ListComp, ast.GeneratorExp, ast.SetComp)):
+            gens.extend((g.target, g.iter, n) for g in n.generators)
+        for target, it, owner in gens:
+            if isinstance(it, ast.Call) and isinstance(it.func, ast.Name) and it.func.id == 'enumerate' and len(it.args) == 1 and not it.keywords \
+                    and isinstance(target, ast.Tuple) and target.elts and isinstance(target.elts[0], ast.Name) and target.elts[0].id == pos.id \
+                    and any(x is call for x in ast.walk(owner)):
+                return canon(it.args[0])
+    for f in ast.walk(func):
+        if isinstance(f, ast.FunctionDef) and f is not func and any(x is call for x in ast.walk(f)):
+            params = [x.arg for x in f.args.args]
+            if not params or params[0] != pos.id:
+                return None
+            for m_ in ast.walk(func):
+                if isinstance(m_, ast.Call) and isinstance(m_.func, ast.Name) and m_.func.id == 'map' and len(m_.args) == 2 and isinstance(m_.args[0], ast.Name) and m_.args[0].id == f.name \
+                        and isinstance(m_.args[1], ast.Starred):
+                    z = m_.args[1].value
+                    if isinstance(z, ast.Call) and isinstance(z.func, ast.Name) and z.func.id == 'zip' and len(z.args) == 1 and isinstance(z.args[0], ast.Starred):
+                        e = z.args[0].value
+                        if isinstance(e, ast.Call) and isinstance(e.func, ast.Name) and e.func.id == 'enumerate' and len(e.args) == 1:
+                            return canon(e.args[0])
+                if isinstance(m_, ast.Call) and isinstance(m_.func, ast.Name) and m_.func.id == f.name and len(m_.args) == 1 and isinstance(m_.args[0], ast.Starred):
+                    # f(*pair) for pair in enumerate(E)
+                    pass
+            return None
+    return None
+
+
 def check_conf_plumbing(ctx, rule='conf-plumbing', option=None):
     """the class-level ``__bisturi__`` dict reaches every field: builder -> _describe_yourself
     / _compile (with the field's position in the full field list) -> element fields of
@@ -283,22 +321,21 @@ def check_conf_plumbing(ctx, rule='conf-plumbing', option=None):
     # (iii)
     fi = m['compile_fields_and_create_slots']
     calls = [n for n in ast.walk(fi.node) if isinstance(n, ast.Call) and isinstance(n.func, ast.Attribute) and n.func.attr == '_compile']
-    ok = len(calls) == 1
-    if ok:
-        a = calls[0].args
-        ok = len(a) == 3 and canon(a[1]) == 'self.fields' and canon(a[2]) == 'self.bisturi_conf'
-        inner = [f for f in ast.walk(fi.node) if isinstance(f, ast.FunctionDef) and f is not fi.node]
-        pos_ok = False
-        if inner and ok:
-            params = [x.arg for x in inner[0].args.args]
-            pos_ok = len(params) == 2 and canon(a[0]) == params[0]
-            src = unparse(fi.node)
-            pos_ok = pos_ok and ('map(%s, *zip(*enumerate(self.fields)))' % inner[0].name) in src
-        ok = ok and pos_ok
-    if ok:
-        ctx.holds(rule, fi, 'field._compile(position, self.fields, self.bisturi_conf) over enumerate(self.fields)', 'every field is compiled with its own position in the full field list and the class options' + tag, fi.node.lineno)
-    else:
+    st_ok = 'field._compile(position, self.fields, self.bisturi_conf) over enumerate(self.fields)'
+    if len(calls) != 1 or len(calls[0].args) != 3 or calls[0].keywords:
         ctx.violation(rule, fi, 'compile_fields_and_create_slots', 'fields are not compiled with (their position in self.fields, self.fields, the class configuration)' + tag, fi.node.lineno)
+    else:
+        a = calls[0].args
+        if canon(a[1]) != 'self.fields' or canon(a[2]) != 'self.bisturi_conf':
+            ctx.violation(rule, fi, 'compile_fields_and_create_slots: %s' % canon(calls[0]), 'fields are not compiled with (their position in self.fields, self.fields, the class configuration)' + tag, calls[0].lineno, witness=True)
+        else:
+            src = _position_source(fi.node, calls[0])
+            if src is None:
+                ctx.undecided(rule, fi, 'compile_fields_and_create_slots: %s' % canon(calls[0]), 'cannot see where the position argument comes from' + tag, calls[0].lineno)
+            elif src == 'self.fields':
+                ctx.holds(rule, fi, st_ok, 'every field is compiled with its own position in the full field list and the class options' + tag, fi.node.lineno)
+            else:
+                ctx.violation(rule, fi, 'compile_fields_and_create_slots: positions enumerate %s' % src, 'fields are not compiled with (their position in self.fields, self.fields, the class configuration)' + tag, calls[0].lineno, witness=True)
     # (iv)
     for cname in ('Sequence', 'Optional'):
         ci = repo.cls(cname)
